@@ -771,7 +771,11 @@ func vfReplayMain(vfRegistry map[string]func()) {
 			n = 3 // schedule replays: retried with a longer grace period (40, 160, 640 ms) before giving up
 		}
 		fmt.Printf("VF-BEGIN %d\n", ix)
+		began := time.Now()
 		for i := 0; i < n && !found; i++ {
+			if i > 0 && time.Since(began) > 12*time.Second {
+				break // keep within the test deadline: report not-reproduced rather than die
+			}
 			vfResetRun()
 			vfGrace = 40 * time.Millisecond
 			if !vfState.data.Retry && i > 0 {
